@@ -157,7 +157,11 @@ def gen_step(rng, sh, ops_enabled):
         ins = None if rng.random() < 0.5 else [pick() for _ in range(rng.randint(0, 2))]
         if name not in sh.blocks:
             sh.blocks.append(name)
-        return ['make_block', name, members, [pick() for _ in range(rng.randint(0, 2))], ins]
+        outs = [pick() for _ in range(rng.randint(0, 2))]
+        readers = [u for g in members for u in sh.users(g) if u not in members]
+        if readers and rng.random() < 0.4:
+            outs = [rng.choice(readers)]          # an output that reads a member without being one
+        return ['make_block', name, members, outs, ins]
     if op == 'delete_block':
         if not sh.blocks and not invalid:
             return ['mark_as_output', pick()]
@@ -165,6 +169,13 @@ def gen_step(rng, sh, ops_enabled):
         if name in sh.blocks:
             sh.blocks.remove(name)
         return ['delete_block', name]
+    if op == 'remove_block':
+        # removes the block's gates as well; refused when an outside gate (a listed output that is not a member counts
+        # as outside) still reads a member.  The shadow is not updated: later steps may then name removed gates, which
+        # both sides must refuse alike.
+        if not sh.blocks and not invalid:
+            return ['mark_as_output', pick()]
+        return ['remove_block', rng.choice(sh.blocks) if sh.blocks and not invalid else 'B9']
     if op == 'into_bench':
         return ['into_bench']
     if op == 'copy':
@@ -218,7 +229,7 @@ def gen_step(rng, sh, ops_enabled):
 
 PRIMITIVE_OPS = ['add_gate'] * 5 + ['remove_gate', 'rename_gate', 'rename_gate', 'mark_as_output', 'set_outputs',
                                     'set_inputs', 'add_inputs', 'order_inputs', 'order_outputs', 'replace_inputs',
-                                    'make_block', 'delete_block', 'copy']
+                                    'make_block', 'make_block', 'delete_block', 'remove_block', 'copy']
 ALL_OPS = PRIMITIVE_OPS + ['into_bench', 'connect', 'connect', 'replace_subcircuit']
 
 
